@@ -193,8 +193,6 @@ class Inbound:
                     if self.incremental and self.serial != soa.serial:
                         raise dns.exception.FormError("unexpected end of IXFR sequence")
                     self.txn.replace(name, rdataset)
-                    self.txn.commit()
-                    self.txn = None
                     self.done = True
                 else:
                     #
@@ -249,6 +247,13 @@ class Inbound:
             # get the proper "truncated" response
             #
             raise dns.exception.FormError("unexpected end of UDP IXFR")
+        if self.done and self.txn is not None:
+            #
+            # Commit only after the whole message has been examined, so an
+            # error is never reported for a transfer that was applied.
+            #
+            self.txn.commit()
+            self.txn = None
         return self.done
 
     #
